@@ -161,6 +161,10 @@ class NixSourceCode:
     def rebuild(self) -> str:
         """Reassemble source with trailing trivia to keep file structure."""
         rebuilt = "".join(obj.rebuild() for obj in self.expressions)
+        if not self.contains_error:
+            # A file never starts with blank lines: parsing drops them, and so
+            # must a body that inherited them from a removed `let … in`.
+            rebuilt = rebuilt.lstrip("\n")
         if not self.trailing:
             return rebuilt
 
